@@ -1019,3 +1019,193 @@ Lemma weak_replay_refuted :
   /\ thread_history code_replay (sidecar_after_loss 10 7) (seq 0 10) = seq 0 10
   /\ thread_history code_replay (Some [0; 1; 3; 4]) (seq 0 5) = seq 0 5.
 Proof. vm_compute. repeat split. Qed.
+
+(* ---------- the repaired handlers (LagRefill): exactly-once on the bounded channel WITHOUT NoLag ---------- *)
+Lemma keep_gt_seq0 o k : keep FilterGtLast (last_seq (seq 0 o)) k = Nat.leb o k.
+Proof. apply keep_gt_seq. Qed.
+
+Lemma emit_seq : forall len q o, q <= o -> emit_new (seq 0 o) (seq q len) = seq 0 (Nat.max o (q + len)).
+Proof.
+  induction len as [|len IH]; intros q o H.
+  - cbn [seq emit_new]. f_equal. lia.
+  - cbn [seq emit_new]. rewrite keep_gt_seq0. destruct (Nat.leb_spec o q) as [Hle|Hgt].
+    + assert (o = q) by lia. subst o. change [q] with (seq q 1). replace q with (0 + q) at 2 by lia.
+      rewrite <- seq_app. rewrite IH by lia. f_equal. lia.
+    + rewrite IH by lia. f_equal. lia.
+Qed.
+
+Definition RPInv (n : nat) (s : rst) (p r : nat) : Prop :=
+  r_hist s = seq 0 r /\
+  ((r = p /\ p <= n /\ r_prog s = rest RecThenPub n p) \/
+   (r = S p /\ p < n /\ r_prog s = Pub p :: rest RecThenPub n (S p))).
+
+Definition RSInv (p r : nat) (x : rsub) : Prop :=
+  (rs_pc x = 0 /\ rs_out x = []) \/
+  (rs_pc x = 1 /\ exists q, q <= p /\ own (rs_live x) = seq q (p - q) /\ rs_out x = []) \/
+  (2 <= rs_pc x /\ exists q o, q <= p /\ own (rs_live x) = seq q (p - q) /\ rs_out x = seq 0 o /\ o <= r /\
+                    (rs_pend x = false -> q <= o)).
+
+Definition RInv (n : nat) (s : rst) : Prop := exists p r, RPInv n s p r /\ Forall (RSInv p r) (r_subs s).
+
+(* dropping the oldest pending entry keeps the own frames a contiguous run that ends at p *)
+Lemma own_tl l q p : q <= p -> own l = seq q (p - q) -> exists q', q <= q' /\ q' <= p /\ own (tl l) = seq q' (p - q').
+Proof.
+  intros Hq H. destruct l as [|[k|] t]; cbn [tl].
+  - exists q. auto.
+  - cbn [own flat_map app] in H. fold (own t) in H. destruct (p - q) as [|d] eqn:Ed; [discriminate|].
+    cbn [seq] in H. injection H as _ Ht. exists (S q). repeat split; try lia. rewrite Ht. f_equal. lia.
+  - cbn [own flat_map app] in H. fold (own t) in H. exists q. auto.
+Qed.
+
+(* a frame arrives on the channel: frame p of this stream (p' = S p) or a frame of another stream (p' = p) *)
+Lemma own_push l q p (k : option nat) p' :
+  (k = Some p /\ p' = S p) \/ (k = None /\ p' = p) -> q <= p -> own l = seq q (p - q) -> own (l ++ [k]) = seq q (p' - q).
+Proof.
+  intros [(-> & ->)|(-> & ->)] Hq H; rewrite own_app, H; cbn [own flat_map app].
+  - replace (S p - q) with (S (p - q)) by lia. rewrite <- seq_snoc. f_equal. f_equal. lia.
+  - apply app_nil_r.
+Qed.
+
+Lemma RSInv_deliver cap p r x (k : option nat) p' :
+  (k = Some p /\ p' = S p) \/ (k = None /\ p' = p) -> RSInv p r x -> RSInv p' r (rdeliver cap k x).
+Proof.
+  intros Hk H. assert (p <= p') as Hpp by (destruct Hk as [(_ & ->)|(_ & ->)]; lia).
+  destruct H as [(Hpc & Ho)|[(Hpc & q & Hq & Hown & Ho)|(Hpc & q & o & Hq & Hown & Ho & Hor & Hpend)]]; unfold rdeliver.
+  - rewrite Hpc. left. auto.
+  - rewrite Hpc. cbn [push_live]. destruct (Nat.ltb (length (rs_live x)) cap).
+    + right; left. cbn [rs_pc rs_live rs_out]. split; [first [exact Hpc | reflexivity]|]. exists q. repeat split; [lia| |exact Ho].
+      apply (own_push _ _ p); assumption.
+    + right; left. cbn [rs_pc rs_live rs_out]. split; [first [exact Hpc | reflexivity]|].
+      destruct (own_tl _ _ _ Hq Hown) as (q' & Hq1 & Hq2 & Ht). exists q'. repeat split; [lia| |exact Ho].
+      apply (own_push _ _ p); assumption.
+  - destruct (rs_pc x) as [|pc] eqn:Epc; [lia|]. cbn [push_live]. destruct (Nat.ltb (length (rs_live x)) cap).
+    + right; right. cbn [rs_pc rs_live rs_out rs_pend]. split; [lia|]. exists q, o. repeat split; try assumption; [lia| |].
+      * apply (own_push _ _ p); assumption.
+      * rewrite orb_false_r. exact Hpend.
+    + right; right. cbn [rs_pc rs_live rs_out rs_pend]. split; [lia|].
+      destruct (own_tl _ _ _ Hq Hown) as (q' & Hq1 & Hq2 & Ht). exists q', o. repeat split; try assumption; [lia| |].
+      * apply (own_push _ _ p); assumption.
+      * rewrite orb_true_r. discriminate.
+Qed.
+
+Lemma RSInv_rec p r x : RSInv p r x -> RSInv p (S r) x.
+Proof.
+  intros [H|[H|(Hpc & q & o & Hq & Hown & Ho & Hor & Hpend)]]; [left; exact H|right; left; exact H|].
+  right; right. split; [exact Hpc|]. exists q, o. repeat split; auto.
+Qed.
+
+Lemma rdrain_spec p r x : p <= r -> 2 <= rs_pc x ->
+  forall q o, q <= p -> own (rs_live x) = seq q (p - q) -> rs_out x = seq 0 o -> o <= r -> (rs_pend x = false -> q <= o) ->
+  exists k, rs_out (rdrain LagRefill (seq 0 r) x) = seq 0 k /\ p <= k /\ k <= r.
+Proof.
+  intros Hpr Hpc q o Hq Hown Ho Hor Hpend. unfold rdrain. cbn [rs_out lag_refills]. rewrite andb_true_r, Hown, Ho.
+  destruct (rs_pend x).
+  - rewrite (emit_seq r 0 o) by lia. cbn [Nat.add]. replace (Nat.max o r) with r by lia.
+    rewrite emit_seq by lia. exists (Nat.max r (q + (p - q))). split; [reflexivity|lia].
+  - specialize (Hpend eq_refl). rewrite emit_seq by lia. exists (Nat.max o (q + (p - q))). split; [reflexivity|lia].
+Qed.
+
+Lemma RSInv_sub p r x : p <= r -> RSInv p r x -> RSInv p r (rsub_step LagRefill (seq 0 r) x).
+Proof.
+  intros Hpr [(Hpc & Ho)|[(Hpc & q & Hq & Hown & Ho)|(Hpc & q & o & Hq & Hown & Ho & Hor & Hpend)]]; unfold rsub_step.
+  - rewrite Hpc. right; left. cbn [rs_pc rs_live rs_out]. split; [reflexivity|]. exists p. repeat split; [lia|].
+    replace (p - p) with 0 by lia. reflexivity.
+  - rewrite Hpc. right; right. cbn [rs_pc rs_live rs_out rs_pend]. split; [lia|]. exists q, r. repeat split; auto. intros _. lia.
+  - destruct (rs_pc x) as [|[|pc]] eqn:Epc; [lia|lia|].
+    destruct (rdrain_spec p r x Hpr ltac:(lia) q o Hq Hown Ho Hor Hpend) as (k & Hk & Hk1 & Hk2).
+    right; right. split; [unfold rdrain; cbn [rs_pc]; lia|]. exists p, k. repeat split; try assumption; try lia.
+    unfold rdrain. cbn [rs_live own flat_map]. replace (p - p) with 0 by lia. reflexivity.
+Qed.
+
+Lemma RInv_init n m : RInv n (rinit n m).
+Proof.
+  exists 0, 0. split.
+  - split; [reflexivity|]. left. repeat split; lia.
+  - cbn [rinit r_subs]. apply Forall_forall. intros x Hx. apply repeat_spec in Hx. subst x. left. split; reflexivity.
+Qed.
+
+Lemma RInv_step cap n s a : RInv n s -> RInv n (rstep LagRefill cap s a).
+Proof.
+  intros (p & r & (Hh & HP) & HS). destruct a as [|i|].
+  - destruct HP as [(Hr & Hp & Hg)|(Hr & Hp & Hg)].
+    + destruct (Nat.eq_dec p n) as [->|Hne].
+      * exists n, r. cbn [rstep]. rewrite Hg, rest_nil by lia. split; [|exact HS].
+        split; [exact Hh|]. left. rewrite Hg, rest_nil by lia. auto.
+      * exists p, (S r). cbn [rstep]. rewrite Hg, rest_unfold by lia. cbn [frame_steps app r_prog r_hist r_subs]. split.
+        -- split; [rewrite Hh, Hr; apply seq_snoc|]. right. repeat split; lia.
+        -- eapply Forall_impl; [|exact HS]. intros x. apply RSInv_rec.
+    + exists (S p), r. cbn [rstep]. rewrite Hg. cbn [r_prog r_hist r_subs]. split.
+      * split; [exact Hh|]. left. repeat split; lia.
+      * apply Forall_map. eapply Forall_impl; [|exact HS]. intros x. apply RSInv_deliver. left. auto.
+  - exists p, r. cbn [rstep r_prog r_hist r_subs]. split; [split; [exact Hh|exact HP]|].
+    rewrite Hh. apply Forall_upd_nth; [|exact HS]. intros x. apply RSInv_sub.
+    destruct HP as [(Hr & _)|(Hr & _)]; lia.
+  - exists p, r. cbn [rstep r_prog r_hist r_subs]. split; [split; [exact Hh|exact HP]|].
+    apply Forall_map. eapply Forall_impl; [|exact HS]. intros x. apply RSInv_deliver. right. auto.
+Qed.
+
+Lemma RInv_run cap n sched : forall s, RInv n s -> RInv n (fold_left (rstep LagRefill cap) sched s).
+Proof.
+  induction sched as [|a l IH]; intros s H; [exact H|]. cbn [fold_left]. apply IH, RInv_step, H.
+Qed.
+
+Lemma RPInv_published n s p r : RPInv n s p r -> rpublished n s = p /\ p <= r /\ r <= n /\ (r_prog s = [] -> p = n).
+Proof.
+  intros (_ & [(Hr & Hp & Hg)|(Hr & Hp & Hg)]); unfold rpublished; rewrite Hg.
+  - rewrite (count_pub_rest _ _ (n - p)) by reflexivity. repeat split; try lia.
+    intros E. destruct (Nat.eq_dec p n); [assumption|]. rewrite rest_unfold in E by lia. discriminate.
+  - cbn [count_pub]. rewrite (count_pub_rest _ _ (n - S p)) by reflexivity. repeat split; try lia.
+    intros E. discriminate.
+Qed.
+
+(* every capacity, every stream length, every schedule, every subscriber: no NoLag hypothesis *)
+Theorem exactly_once_with_refill : forall (cap n m : nat) (sched : list actor) (i : nat) (x : rsub),
+  nth_error (r_subs (rfinal LagRefill cap n m sched)) i = Some x -> rattached x = true ->
+  exists k, rdelivered LagRefill (rfinal LagRefill cap n m sched) x = seq 0 k
+            /\ rpublished n (rfinal LagRefill cap n m sched) <= k /\ k <= n
+            /\ (r_prog (rfinal LagRefill cap n m sched) = [] -> k = n).
+Proof.
+  intros cap n m sched i x Hn Ha. unfold rfinal in *.
+  destruct (RInv_run cap n sched _ (RInv_init n m)) as (p & r & HP & HS).
+  destruct (RPInv_published _ _ _ _ HP) as (Hpub & Hpr & Hrn & Hend). destruct HP as (Hh & _).
+  apply nth_error_In in Hn. rewrite Forall_forall in HS. specialize (HS x Hn).
+  unfold rattached in Ha. apply Nat.leb_le in Ha.
+  destruct HS as [(Hpc & _)|[(Hpc & _)|(Hpc & q & o & Hq & Hown & Ho & Hor & Hpend)]]; [lia|lia|].
+  unfold rdelivered. rewrite Hh.
+  destruct (rdrain_spec p r x Hpr Hpc q o Hq Hown Ho Hor Hpend) as (k & Hk & Hk1 & Hk2).
+  exists k. split; [exact Hk|]. rewrite Hpub. split; [lia|]. split; [lia|]. intros E. specialize (Hend E). lia.
+Qed.
+
+Theorem exactly_once_with_refill_policies : forall (pols : list lagpolicy), forallb lag_refills pols = true ->
+  forall pol, In pol pols ->
+  forall (cap n m : nat) (sched : list actor) (i : nat) (x : rsub),
+  nth_error (r_subs (rfinal pol cap n m sched)) i = Some x -> rattached x = true ->
+  exists k, rdelivered pol (rfinal pol cap n m sched) x = seq 0 k
+            /\ rpublished n (rfinal pol cap n m sched) <= k /\ k <= n
+            /\ (r_prog (rfinal pol cap n m sched) = [] -> k = n).
+Proof.
+  intros pols H pol Hin. rewrite forallb_forall in H. specialize (H pol Hin). destruct pol; [discriminate|].
+  exact exactly_once_with_refill.
+Qed.
+
+(* L1: the handlers as they were (LagSkip): capacity 1, the subscriber attaches, two frames are produced before it reads *)
+Definition lag_sched : list actor := [AS 0; AS 0; AP; AP; AP; AP].
+Lemma lag_skip_refuted :
+  r_prog (rfinal LagSkip 1 2 1 lag_sched) = []
+  /\ map rattached (r_subs (rfinal LagSkip 1 2 1 lag_sched)) = [true]
+  /\ map (rdelivered LagSkip (rfinal LagSkip 1 2 1 lag_sched)) (r_subs (rfinal LagSkip 1 2 1 lag_sched)) = [[1]]
+  /\ map (rdelivered LagRefill (rfinal LagRefill 1 2 1 lag_sched)) (r_subs (rfinal LagRefill 1 2 1 lag_sched)) = [[0; 1]].
+Proof. vm_compute. repeat split. Qed.
+(* non-vacuity: capacity 2, 6 frames, three subscribers (one lags before its snapshot, two after it),
+   frames of another stream in between *)
+Definition refill_demo_sched : list actor :=
+  [AS 0; AP; AP; AS 1; AS 1; AP; AP; AO; AP; AP; AS 2; AS 2; AS 2; AP; AP; AO; AP; AP; AS 0; AP; AP; AS 2].
+Lemma refill_demo :
+  r_prog (rfinal LagRefill 2 6 3 refill_demo_sched) = []
+  /\ map rs_pend (r_subs (rfinal LagRefill 2 6 3 refill_demo_sched)) = [true; true; false]
+  /\ map rattached (r_subs (rfinal LagRefill 2 6 3 refill_demo_sched)) = [true; true; true]
+  /\ map (rdelivered LagRefill (rfinal LagRefill 2 6 3 refill_demo_sched)) (r_subs (rfinal LagRefill 2 6 3 refill_demo_sched))
+     = [[0; 1; 2; 3; 4; 5]; [0; 1; 2; 3; 4; 5]; [0; 1; 2; 3; 4; 5]]
+  /\ map (rdelivered LagSkip (rfinal LagSkip 2 6 3 refill_demo_sched)) (r_subs (rfinal LagSkip 2 6 3 refill_demo_sched))
+     = [[0; 1; 2; 3; 4; 5]; [0; 4; 5]; [0; 1; 2; 4; 5]].
+Proof. vm_compute. repeat split. Qed.
